@@ -97,7 +97,11 @@ def cycles(x0, fmt, root, tag, first_allow, viols, counters):
             return False
         counters["generation2"] += 1
         ignore = ("provenance']",) if fmt == "json_qcschema" else ()
-        dd = [d for d in snap.diff(canon(x1, fmt), canon(x2, fmt), limit=8) if not any(ig in d[0] for ig in ("provenance",) if fmt == "json_qcschema")]
+        snap.SIGNED_ZERO = True
+        try:
+            dd = [d for d in snap.diff(canon(x1, fmt), canon(x2, fmt), limit=8) if not any(ig in d[0] for ig in ("provenance",) if fmt == "json_qcschema")]
+        finally:
+            snap.SIGNED_ZERO = False
         if dd:
             path0 = dd[0][0]
             attr = path0.split("[")[0].split(":")[0]
@@ -135,6 +139,13 @@ def run_case(case):
             if klass == "large" and fmt in ("fcidump", "json_qcschema", "fchk", "molden", "molekel", "wfn", "wfx", "cube", "sdf"):
                 klass = "small"
             x0, f = go.make(fmt, rng, klass)
+            if x0.atcoords is not None and x0.mo is None and case["i"] % 3 == 1:
+                # numerical noise around zero and signed zeros (planar / symmetric geometries out of an optimiser)
+                xyz = x0.atcoords.copy()
+                k = rng.integers(0, xyz.size, size=max(1, xyz.size // 3))
+                xyz.flat[k] = rng.choice([-1e-12, 1e-12, -4e-11, 3e-9, -0.0, 0.0, -6e-8], size=len(k))
+                x0.atcoords = xyz
+                klass += "+noise"
             if cycles(x0, fmt, root, f"generated {fmt}/{klass}", False, viols, counters):
                 feats.append(f"gen:{fmt}:{klass}")
             sample = {"fmt": fmt, "klass": klass}
